@@ -33,11 +33,11 @@ NNew(c, f) ==
   LET req == c \div 1000
       p == RP!Bytes(Seed, 900 + nops, c % 1000)
   IN /\ New(Mech, Gm, req, p, f)
-     /\ Step(<<"new", c, f % 10, reply'.kind>>, [op |-> "new", strength |-> req, p |-> Hx!FromBytes(p), src |-> SrcJson(srclog'),
+     /\ Step(<<"new", c, reply'.kind>>, [op |-> "new", strength |-> req, p |-> Hx!FromBytes(p), src |-> SrcJson(srclog'),
                             res |-> reply'.kind, calls |-> srck'])
 NRead(n, f) ==
   /\ Read(n, f)
-  /\ Step(<<"read", n, f % 10, reply'.kind>>, [op |-> "read", n |-> n, src |-> SrcJson(srclog'), res |-> reply'.kind,
+  /\ Step(<<"read", n, reply'.kind>>, [op |-> "read", n |-> n, src |-> SrcJson(srclog'), res |-> reply'.kind,
                           exp |-> Hx!FromBytes(reply'.out), calls |-> srck'])
 
 Next == \/ \E c \in NewOps : \E f \in Faults(2) : NNew(c, f)
